@@ -474,4 +474,15 @@ theorem leafFilters_iff (o : Opts) (c : Cert) : leafFilters o c = none ↔ LeafO
   · intro h name hn
     rw [leafCheck_complete h name (order_known name hn)]
 
+/-- What the (regenerated-shape) poison loop computes. -/
+theorem poisonLoop_spec : ∀ (l : List PoisonExt) (found : Bool),
+    poisonLoop found l =
+      if l.any (fun x => !(x.critical && x.valueIsNull)) then .error () else .ok (found || !l.isEmpty)
+  | [], found => by simp [poisonLoop, Gen.poisonLoopFinalReturn]
+  | p :: rest, found => by
+    obtain ⟨cr, nl⟩ := p
+    have ih := poisonLoop_spec rest true
+    cases cr <;> cases nl <;>
+      simp [poisonLoop, Gen.poisonInvalid, Gen.poisonLoopStopsAtFirst, Gen.poisonLoopMarks, ih]
+
 end C02
